@@ -182,3 +182,57 @@ func TestThousandsOfTinyPackets(t *testing.T) {
 	}
 	vh.Check(t, "TestThousandsOfTinyPackets", vh.N(12, 200), gen, runBlob)
 }
+
+// ---- responses with tokens the library has no parser for (TDS_OPTIONCMD, TDS_CONTROL, TDS_KEY,
+// ...): whatever it makes of them in one packet (it takes the rest of the message as one
+// tokenless package), it makes the same of them however the message is cut.
+
+func runUnknownToken(c blobCase) (f *vh.Failure) {
+	defer func() {
+		if r := recover(); r != nil {
+			vh.CheckHarnessPanic(r)
+			f = vh.Failf("C02/panic", "response of %d bytes with an unknown token, cuts %v: panic: %v", len(c.Stream), c.Cuts, r)
+		}
+	}()
+	ref, f := runPackets(rc.Packetise(c.Stream, nil, rc.BufResponse, 0))
+	if f != nil {
+		return f
+	}
+	got, f := runPackets(rc.Packetise(c.Stream, c.Cuts, rc.BufResponse, 0))
+	if f != nil {
+		return f
+	}
+	how := fmt.Sprintf("response with an unknown token (%d bytes: % x) cuts %v", len(c.Stream), c.Stream, c.Cuts)
+	if len(got.errs) != len(ref.errs) {
+		return vh.Failf("C02/fragmented-error", "%s: errors %v; in one packet: %v", how, got.errs, ref.errs)
+	}
+	if len(got.pkgs) != len(ref.pkgs) {
+		return vh.Failf("C02/fragmented-delivery-differs", "%s: delivered [%s], in one packet [%s]", how, describe(got.pkgs), describe(ref.pkgs))
+	}
+	for i := range got.pkgs {
+		if !reflect.DeepEqual(got.pkgs[i], ref.pkgs[i]) {
+			return vh.Failf("C02/fragmented-delivery-differs", "%s: package %d differs: %v, in one packet %v", how, i, got.pkgs[i], ref.pkgs[i])
+		}
+	}
+	vh.Label("unknown-token:compared")
+	if len(c.Cuts) > 0 {
+		vh.NonTrivial(fmt.Sprintf("unk|%x|%v", c.Stream, c.Cuts))
+	}
+	return nil
+}
+
+func TestUnknownTokensFragmented(t *testing.T) {
+	gen := func(rt *rapid.T) blobCase {
+		var out []byte
+		for n := rapid.IntRange(0, 2).Draw(rt, "before"); n > 0; n-- {
+			out = append(out, rc.TokDone, 1, 0, 0, 0, byte(n), 0, 0, 0)
+		}
+		out = append(out, rapid.SampledFrom([]byte{0xa6, 0xae, 0xca, 0xa4, 0x7c, 0xab, 0xbc, 0x01}).Draw(rt, "token"))
+		out = append(out, rapid.SliceOfN(rapid.Byte(), 0, 24).Draw(rt, "body")...)
+		if rapid.Bool().Draw(rt, "done") {
+			out = append(out, rc.TokDone, 0, 0, 0, 0, 0, 0, 0, 0)
+		}
+		return blobCase{Stream: out, Cuts: respgen.Cuts(rt, len(out), false)}
+	}
+	vh.Check(t, "TestUnknownTokensFragmented", vh.N(1500, 40000), gen, runUnknownToken)
+}
